@@ -751,3 +751,24 @@ Fixpoint yrun (s : sys) (ls : list ylabel) : option sys :=
   end.
 Definition is_yuse (l : ylabel) : bool := match l with YUse _ _ => true | _ => false end.
 Definition no_yuse (ls : list ylabel) : bool := forallb (fun l => negb (is_yuse l)) ls.
+
+(* ====================================================================================== *)
+(* 7. An honest server: a USE it accepts is answered with the canonical name of the        *)
+(*    keyspace asked for (used to state what overlapping calls guarantee)                  *)
+(* ====================================================================================== *)
+Definition honest_reply (k : ks) (r : reply) : bool :=
+  match r with RSetKeyspace n => name_eqb n (canon k) | _ => true end.
+Definition honest_label (s : pool) (l : label) : bool :=
+  match l with
+  | SetKsDone c (Some r) _ _ => match ph s c with Setting k => honest_reply k r | _ => true end
+  | UseAck c r => match wire s c with (_, k) :: _ => honest_reply k r | [] => true end
+  | _ => true
+  end.
+(* run with an honest server *)
+Fixpoint hrun (s : pool) (ls : list label) : option pool :=
+  match ls with
+  | [] => Some s
+  | l :: r => if honest_label s l
+              then match step s l with Some s' => hrun s' r | None => None end
+              else None
+  end.
